@@ -548,6 +548,10 @@ def same_value(a, b):
         return isinstance(a, bool) and isinstance(b, bool) and a == b
     if isinstance(a, (int, float)) and isinstance(b, (int, float)):
         return a == b
+    if isinstance(a, tuple):
+        a = list(a)
+    if isinstance(b, tuple):
+        b = list(b)
     if isinstance(a, list) and isinstance(b, list):
         return len(a) == len(b) and all(same_value(x, y) for x, y in zip(a, b))
     if isinstance(a, dict) and isinstance(b, dict):
@@ -568,14 +572,55 @@ def filled(v, t):
         return [filled(x, t.type) for x in v] if isinstance(v, (list, tuple)) else [filled(v, t.type)]
     if isinstance(t, InputObjectType) and isinstance(v, dict):
         out = {}
+        owned = {f.python_name for f in t.fields}
         for f in t.fields:
-            key = f.python_name if f.python_name in v else f.name     # declared defaults are keyed by Python names
+            # declared defaults are keyed by Python names; the GraphQL name only when nobody owns that key
+            key = f.python_name if (f.python_name in v or f.name in owned) else f.name
             if key in v:
                 out[f.python_name] = filled(v[key], f.type)
             elif f.has_default_value:
                 out[f.python_name] = f.default_value
         return out
     return v
+
+
+_NO = object()
+
+
+def _structured_custom_scalar(node, live_type):
+    """Literal coercion (`value_from_ast`, property C07) refuses list / object literals at ANY scalar type, so a
+    structured default of a JSON-like custom scalar cannot be coerced back by the library itself; what the text
+    DENOTES is then read with the library's `untyped_value_from_ast`, position by position through the type."""
+    from py_gql.lang import ast as A
+    from py_gql.schema import InputObjectType, ListType, NonNullType, ScalarType
+    from py_gql.schema.scalars import SPECIFIED_SCALAR_TYPES
+    from py_gql.utilities import untyped_value_from_ast, value_from_ast
+    t = live_type.type if isinstance(live_type, NonNullType) else live_type
+    if isinstance(node, A.NullValue):
+        return None
+    try:
+        if isinstance(t, ListType):
+            items = node.values if isinstance(node, A.ListValue) else [node]
+            out = [_structured_custom_scalar(x, t.type) for x in items]
+            return _NO if any(x is _NO for x in out) else out
+        if isinstance(t, InputObjectType) and isinstance(node, A.ObjectValue):
+            given = {f.name.value: f.value for f in node.fields}
+            out = {}
+            for f in t.fields:
+                if f.name in given:
+                    out[f.python_name] = _structured_custom_scalar(given[f.name], f.type)
+                    if out[f.python_name] is _NO:
+                        return _NO
+                elif f.has_default_value:
+                    out[f.python_name] = f.default_value
+            return out
+        if isinstance(t, ScalarType) and t not in SPECIFIED_SCALAR_TYPES:
+            # what the literal DENOTES for a custom scalar: its untyped reading (the default `parse_literal` hands the
+            # scalar the token TEXT, so `2` comes back as "2"; lists / objects are refused by value_from_ast)
+            return untyped_value_from_ast(node)
+        return value_from_ast(node, t)
+    except Exception:  # noqa
+        return _NO
 
 
 def default_roundtrips(text, live_type, declared):
@@ -595,9 +640,13 @@ def default_roundtrips(text, live_type, declared):
     try:
         v = value_from_ast(node, live_type)
     except Exception as e:  # noqa
-        return False, "coercion-" + type(e).__name__
+        v = _structured_custom_scalar(node, live_type)
+        if v is _NO:
+            return False, "coercion-" + type(e).__name__
     if not same_value(v, declared) and not same_value(v, filled(declared, live_type)):
-        return False, "different-value"
+        u = _structured_custom_scalar(node, live_type)
+        if u is _NO or not (same_value(u, declared) or same_value(u, filled(declared, live_type))):
+            return False, "different-value"
     return True, None
 
 
@@ -648,7 +697,7 @@ def shrink_default(live_type, value):
                         break
         elif isinstance(t, InputObjectType) and isinstance(v, dict):
             for f in t.fields:
-                k = f.python_name if f.python_name in v else f.name
+                k = f.python_name if (f.python_name in v or f.name in {g.python_name for g in t.fields}) else f.name
                 if k in v and fails(f.type, v[k]):
                     t, v, progress = f.type, v[k], True
                     break
